@@ -258,8 +258,12 @@ fn datesv(c: &mut Chooser, m: Modes, base: i16, label: &'static str) -> [i16; 12
     if !m.ints || !may(c, m) {
         return w;
     }
-    match c.cost(7, label) {
+    match c.cost(10, label) {
         0 => w,
+        // four-digit calendar years (some writers store them) and the values around that range
+        7 => [2024, 2, 29, 13, 14, 15, 1999, 12, 31, 23, 59, 59],
+        8 => [1900, 1, 1, 0, 0, 0, 2099, 12, 31, 23, 59, 59],
+        9 => [1899, 1, 1, 0, 0, 0, 2100, 12, 31, 23, 59, 59],
         1 => [0; 12],
         2 => [-1; 12],
         3 => [i16::MIN; 12],
